@@ -1124,7 +1124,7 @@ class ArmV6:
         n = self.registers.ttbcr.n
         if n == 0 or substring(mva, 31, 32 - n) == 0:
             ttbr = self.registers.ttbr0_64
-            disabled = self.registers.ttbcr.pd1 == 1
+            disabled = self.registers.ttbcr.pd0 == 1
         else:
             ttbr = self.registers.ttbr1_64
             disabled = self.registers.ttbcr.pd1 == 1
